@@ -1,0 +1,32 @@
+//go:build verif
+
+// Contracts for package blockextractor, read by /verif/govc (comment-only: no declarations, no effect on any build).
+
+package blockextractor
+
+//@ pred PView(m *interfaces.ViewChangeMessage) = m.content.SignedHeader().PreparedProof().PreprepareBlockRef().View()
+
+//@ func keepOnlyMessagesWithBlock
+//@   props C09
+//@   requires forall k :: 0 <= k && k < len(msgs) ==> msgs[k] != nil
+//@   ensures [only-with-block] !isnil(result) && (forall p :: 0 <= p && p < len(result) ==> result[p] != nil && result[p].block != nil && (exists k :: 0 <= k && k < len(msgs) && msgs[k] == result[p]))
+//@   ensures [all-with-block] forall k :: 0 <= k && k < len(msgs) && msgs[k].block != nil ==> (exists p :: 0 <= p && p < len(result) && result[p] == msgs[k])
+//@   loop range msgs
+//@     invariant [only] !isnil(messagesWithBlock) && len(messagesWithBlock) <= $i && (forall p :: 0 <= p && p < len(messagesWithBlock) ==> messagesWithBlock[p] != nil && messagesWithBlock[p].block != nil && (exists k :: 0 <= k && k < $i && msgs[k] == messagesWithBlock[p]))
+//@     invariant [all] forall k :: 0 <= k && k < $i && msgs[k].block != nil ==> (exists p :: 0 <= p && p < len(messagesWithBlock) && messagesWithBlock[p] == msgs[k])
+
+//@ func sortMessagesByDescendingViewOfPreparedProofPPM
+//@   props C09
+//@   requires forall k :: 0 <= k && k < len(msgs) ==> msgs[k] != nil
+//@   ensures [same-length] len(result) == len(msgs)
+//@   ensures [permutation.into] forall p :: 0 <= p && p < len(result) ==> (exists k :: 0 <= k && k < len(msgs) && msgs[k] == result[p])
+//@   ensures [permutation.onto] forall k :: 0 <= k && k < len(msgs) ==> (exists p :: 0 <= p && p < len(result) && result[p] == msgs[k])
+//@   ensures [descending] forall i, j :: 0 <= i && i < j && j < len(result) ==> PView(result[i]) >= PView(result[j])
+
+//@ func GetLatestBlockFromViewChangeMessages
+//@   props C09
+//@   requires forall k :: 0 <= k && k < len(messages) ==> messages[k] != nil
+//@   ensures [none] result0 == nil ==> (forall k :: 0 <= k && k < len(messages) ==> messages[k].block == nil)
+//@   ensures [chosen] result0 != nil ==> (exists k :: 0 <= k && k < len(messages) && messages[k].block == result0 && messages[k].block != nil
+//@     | && result1 == messages[k].content.SignedHeader().PreparedProof().PrepareBlockRef().BlockHash()
+//@     | && (forall j :: 0 <= j && j < len(messages) && messages[j].block != nil ==> PView(messages[j]) <= PView(messages[k])))
